@@ -112,3 +112,37 @@ def lost(rep, model, names, rule='EFF-LOST'):
                               found=f'{c} updates a copy-on-write temporary: the value never reaches the table', key=f'{rule}@{f.mod}:{name}:{c}')
         else:
             rep.ok(rule, name, f'{f.path}:{f.node.lineno} {name}', found='no chained store')
+
+
+def covers_all(guards, depth=0):
+    """do the conditions jointly hold on every path?  Shannon expansion over the conjuncts that occur (c and not c)"""
+    from .. import terms as T
+    guards = [g for g in guards if g != T.FALSE]
+    if any(g == T.TRUE for g in guards):
+        return True
+    if not guards or depth > 8:
+        return False
+    if T.or_(guards) == T.TRUE:
+        return True
+    conj = lambda g: list(g[1]) if g[0] == 'and' else [g]
+    atoms = []
+    for g in guards:
+        for c in conj(g):
+            a = c[1] if c[0] == 'not' else c
+            if a not in atoms:
+                atoms.append(a)
+    for a in atoms:
+        na = T.not_(a)
+        if not (any(a in conj(g) for g in guards) and any(na in conj(g) for g in guards)):
+            continue
+
+        def assume(lit, other):
+            out = []
+            for g in guards:
+                cs = conj(g)
+                if other in cs:
+                    continue
+                out.append(T.and_([c for c in cs if c != lit]))
+            return out
+        return covers_all(assume(a, na), depth + 1) and covers_all(assume(na, a), depth + 1)
+    return False
